@@ -1,5 +1,6 @@
 \* C18 exhaustive check of the implementation-shaped model (template: @@..@@ filled by drivers/c18).
-\* Quick tier: threshold 2, permanent threshold 3, window 2, ban 2 ticks, clock <= 4..5.
+\* Quick tier: threshold 2, permanent threshold 3, window 2, ban 2 ticks, clock <= 4..5;
+\* thorough tier also threshold 3 / permanent 4 / window 3 and ban 3.
 \*   ACTS / PROCS / ATOMIC select the sub-system: ban machinery with two racing handshakes,
 \*   sequential full ban alphabet (clean-ups, successes, operator unban), blacklist + whitelist +
 \*   token bucket.
@@ -9,15 +10,15 @@
 CONSTANTS
   IPs = {"a"}
   Procs = @@PROCS@@
-  Threshold = 2
-  PermAt = 3
-  Win = 2
+  Threshold = @@THR@@
+  PermAt = @@PERMAT@@
+  Win = @@WIN@@
   Ban = @@BAN@@
   BlDur = 2
   Burst = 2
   Refill = 500
   MaxClock = @@MAXCLOCK@@
-  MaxTotal = 4
+  MaxTotal = @@MAXTOTAL@@
   MaxPend = 2
   MaxAdm = 4
   Acts = @@ACTS@@
